@@ -31,7 +31,7 @@ func main() {
 	seed := *hlib.FlagSeed
 	quickTier = !hlib.Thorough()
 	kslib.InstallDetRand(seed)
-	w := &world{o: o, seed: seed, seen: map[string]bool{}, reported: map[string]int{}, pools: map[string][]*gcase{}, perturb: map[string][]perturbSrc{}, unserN: map[string]int{}}
+	w := &world{o: o, seed: seed, seen: map[string]bool{}, reported: map[string]int{}, pools: map[string][]*gcase{}, perturb: map[string][]perturbSrc{}, unserN: map[string]int{}, used: map[string]bool{}}
 	t0 := time.Now()
 	lap := func(what string) {
 		fmt.Fprintf(os.Stderr, "c12: %-28s %6.1fs  lines=%d\n", what, time.Since(t0).Seconds(), o.N)
@@ -62,6 +62,7 @@ func main() {
 	}
 	lap("stream 1: keys + parameters")
 	w.fallbackKeys()
+	w.registryCoverage()
 	lap("fallback (KMS) keys")
 	w.perturbStream(hlib.NewRng(seed, "c12/perturb"))
 	lap("stream 2: perturbed inputs")
